@@ -38,6 +38,7 @@ type HarnessResult struct {
 	Unwind        int               `json:"unwind_bound"`
 	WallS         float64           `json:"wall_s"`
 	Truncated     bool              `json:"path_limit_hit,omitempty"`
+	Retried       bool              `json:"retried_with_tripled_solver_limits,omitempty"`
 	Compose       *composeResult    `json:"scheduler_composition,omitempty"`
 	StageA        int               `json:"string_queries_decided_unbounded"`
 	StageB        int               `json:"string_queries_decided_bounded"`
@@ -132,6 +133,19 @@ func main() {
 	var results []*HarnessResult
 	for _, h := range hs {
 		r := w.runHarness(h, *workers, *solverK, *nvalid)
+		// solver time-outs are load dependent: one second attempt with tripled
+		// limits (verdicts already obtained are served from the cache)
+		if len(r.CEs) == 0 && len(r.Inconcl) > 0 && onlyUnknowns(r.Inconcl) {
+			fmt.Fprintf(os.Stderr, "[%s] %d solver time-outs; retrying with tripled limits\n", h.Name, len(r.Inconcl))
+			h.QueryTimeout *= 3
+			h.StageATimeout *= 3
+			r2 := w.runHarness(h, *workers, *solverK, *nvalid)
+			r2.Retried = true
+			r2.WallS += r.WallS
+			r2.SolverS += r.SolverS
+			r2.Queries += r.Queries
+			r = r2
+		}
 		results = append(results, r)
 		fmt.Fprintf(os.Stderr, "[%s] paths=%d done=%d pruned=%d obligations=%d discharged=%d ces=%d inconclusive=%d queries=%d solver=%.1fs wall=%.1fs\n",
 			h.Name, r.Paths, r.Done, r.Infeasible, r.Obligations, r.Discharged, len(r.CEs), len(r.Inconcl), r.Queries, r.SolverS, r.WallS)
@@ -150,6 +164,15 @@ func main() {
 	rep := &Report{w: w, prop: *prop, tier: *tier, results: results, loadS: loadS, t0: t0, noReplay: *noReplay, solver: *solverK}
 	code := rep.finish()
 	os.Exit(code)
+}
+
+func onlyUnknowns(in []string) bool {
+	for _, s := range in {
+		if !strings.Contains(s, "unknown") {
+			return false
+		}
+	}
+	return true
 }
 
 func isFlagSet(name string) bool {
